@@ -13,7 +13,7 @@ import time
 
 import numpy as np
 
-from ..harness import T, sig_of
+from ..harness import T, sig_of, gradof, set_grad
 from ..symnum import engine as E
 from ..symnum import scalar as sc
 from ..symnum import array as ar
@@ -174,7 +174,7 @@ class Case:
             g_arr = env.arr("g", o.shape, dt, lo=-BOUND, hi=BOUND)
             o.backward(Tn(g_arr))
             outs = o.data
-            grads = x._grad
+            grads = gradof(x)
             if env.sym:
                 of = list(outs.view(np.ndarray).reshape(-1))
                 gf = list(grads.view(np.ndarray).reshape(-1))
